@@ -404,6 +404,25 @@ func artefactConformance(run *core.Run) {
 				}
 			}
 		}
+		// layer 2c: rule-element labels (`name=element`) of the parser grammar = labelled children the generated
+		// contexts of the three packages offer
+		if kind == "Parser" {
+			if gsrc, err := os.ReadFile(filepath.Join(repo, "OpenFGAParser.g4")); err == nil {
+				want := g4.GrammarLabels(string(gsrc))
+				run.Count("grammar_labels", int64(len(want)))
+				for _, l := range []struct{ lang, src string }{{"go", goSrc}, {"ts", tsSrc}, {"java", javaSrc}} {
+					got := g4.GeneratedLabels(l.src, l.lang)
+					run.Eval(1)
+					if len(got) == 0 && len(want) > 0 {
+						run.Inconclusive("no labelled children found in the generated %s parser (pattern outdated?)", l.lang)
+						continue
+					}
+					if why := eqStrs(got, want); why != "" {
+						run.Violation("rule-element-labels-differ:"+l.lang, c, fmt.Sprintf("the labels of OpenFGAParser.g4: %v", want), fmt.Sprintf("%v (%s)", got, why))
+					}
+				}
+			}
+		}
 		// layer 2: vocabularies
 		gn, err1 := g4.GoNames(goSrc)
 		tn, err2 := g4.TSNames(tsSrc)
